@@ -53,8 +53,9 @@ CHECKS = {
             "Every byte of every message and every verdict of honest Prio3 executions (all shipped circuits, 2-5 aggregators, 1-3 proofs, three tiny fields incl. "
             "the split-word one, random ctx/nonce/key/randomness, all messages through their wire encoding) is recomputed by TLC from the recorded XOF table; "
             "honest/batch events assert output shares sum to the truncated encoding and the unsharded result is the plain aggregate mod P. FLP completeness for all "
-            "randomness is model-checked under C05.",
-            "Field-level recomputation on tiny-field instantiations of the same generic code; XOF bytes are an oracle; aggregator counts <= 5 and proofs <= 3 in traces."),
+            "randomness is model-checked under C05. The shipped alias constructors are bound on their deployed fields by Aliases_Trace.tla: algorithm id, every encoded "
+            "length (hence circuit, field, proof count as denoted by the arguments), acceptance, and result = plain aggregate mod p for bounds up to 2^100 and 254 aggregators.",
+            "Field-level recomputation on tiny-field instantiations of the same generic code; XOF bytes are an oracle; deployed aliases at length/verdict/result level."),
     "C02": ("DESIGN.md#c02--prio3-robustness",
             "Same Prio3 trace spec; adversarial scenario families (invalid inputs with honest proofs via a RawInput wrapper over the public Type trait; single-bit "
             "tampering of every message byte position; dropped/duplicated verifier shares); exact verdicts recomputed by TLC on tiny fields",
